@@ -19,6 +19,7 @@ import (
 	"net"
 	"os"
 	"path/filepath"
+	"regexp"
 	"runtime"
 	"strconv"
 	"strings"
@@ -162,6 +163,37 @@ func cEnvInt(name string, def int) int {
 
 // TestVerifCacheStress: VERIF_RECORD=1 records the trace (validated by TLC); VERIF_RECORD=0
 // runs without any hook so that the race detector sees the code's own synchronisation only.
+const cStableID = 4000
+
+var cExps = []net.IP{{10, 0, 0, 1}, {10, 0, 0, 2}, net.ParseIP("2001:db8::1"), {192, 168, 7, 7}}
+var cIDs = []int{256, 257, cStableID}
+
+// cAgedCache announces version 50 of every key, dumps, makes every entry of the file an hour old and loads it
+func cAgedCache(t *testing.T, dir string) MemCache {
+	c := GetCache("")
+	for _, e := range cExps {
+		for _, id := range cIDs {
+			if _, err := NewDecoder(e, cTplMsg(id, 50)).Decode(c); err != nil {
+				t.Fatalf("driver: %v", err)
+			}
+		}
+	}
+	file := filepath.Join(dir, "aged.json")
+	if err := c.Dump(file); err != nil {
+		t.Fatalf("driver: %v", err)
+	}
+	b, err := ioutil.ReadFile(file)
+	if err != nil {
+		t.Fatalf("driver: %v", err)
+	}
+	old := fmt.Sprintf(`"Timestamp":%d`, time.Now().Unix()-3600)
+	b = regexp.MustCompile(`"Timestamp":\d+`).ReplaceAll(b, []byte(old))
+	if err := ioutil.WriteFile(file, b, 0644); err != nil {
+		t.Fatalf("driver: %v", err)
+	}
+	return GetCache(file)
+}
+
 func TestVerifCacheStress(t *testing.T) {
 	out := os.Getenv("VERIF_OUT")
 	if out == "" {
@@ -176,6 +208,10 @@ func TestVerifCacheStress(t *testing.T) {
 	}
 	defer os.RemoveAll(dir)
 	cache := GetCache("")
+	if os.Getenv("VERIF_PRELOAD") == "1" {
+		// a collector that was restarted: the cache comes from the file a previous run dumped, its entries are hours old
+		cache = cAgedCache(t, dir)
+	}
 	rec := &cRecorder{shards: map[*TemplatesShard]int{}, keys: map[uint32]string{}}
 	for i, s := range cache {
 		rec.shards[s] = i + 1
@@ -185,8 +221,7 @@ func TestVerifCacheStress(t *testing.T) {
 		defer func() { verifHook = nil }()
 	}
 	// overlapping and disjoint keys: 4 exporters x 3 ids; all workers touch exporter 0
-	exps := []net.IP{{10, 0, 0, 1}, {10, 0, 0, 2}, net.ParseIP("2001:db8::1"), {192, 168, 7, 7}}
-	ids := []int{256, 257, 4000}
+	exps, ids := cExps, cIDs
 	var verCounter int64
 	var wg sync.WaitGroup
 	stop := make(chan struct{})
@@ -204,6 +239,9 @@ func TestVerifCacheStress(t *testing.T) {
 				switch k := rng.Intn(10); {
 				case k < 3: // template announcement through the real decode path
 					ver := int(atomic.AddInt64(&verCounter, 1))%2400 + 51
+					if id == cStableID && !record {
+						ver = 50 // exporters resend their templates unchanged: this one never changes
+					}
 					if _, err := NewDecoder(e, cTplMsg(id, ver)).Decode(cache); err != nil {
 						t.Errorf("template datagram rejected: %v", err)
 					}
